@@ -213,10 +213,13 @@ for nm in ("c01_pe_and_imm", "c01_pe_ldr", "c01_pe_ld_lit", "c01_pe_st_lit", "c0
 # ------------------------------------------------------------------ C19
 prop(
     "C19",
-    "reset_state() empties the symbol table from any table of <= 3 entries; after it a fresh insert succeeds and every lookup "
-    "misses; token-level assembly B after (assembly A; reset) equals B on an empty table; StaticSource new/src/reclaim is "
-    "memory-safe under Kani's pointer checks.",
-    "the thread-local is modelled by a static (kani-compiler cannot compile a drop-carrying thread_local); lace watch itself.",
+    "reset_state() empties the symbol table (1 / 3 entries recorded): every lookup misses afterwards and a "
+    "re-definition succeeds; define/resolve 'ab'; reset; define it elsewhere or not at all: resolution follows the "
+    "second source only, whether or not the first assembly had resolved the reference; StaticSource new/src/reclaim "
+    "is memory-safe under Kani's pointer checks.",
+    "the thread-local is modelled by a static (kani-compiler cannot compile a drop-carrying thread_local, so a "
+    "change that adds *another* such thread-local makes the harnesses inconclusive rather than failing: seed "
+    "C19-B); tables with hundreds of entries (seed C19-A); lace watch itself.",
     [],
 )
 for n in (1, 3):
@@ -313,11 +316,14 @@ prop(
 )
 prop(
     "C17",
-    "Index/span arithmetic behind the debugger's view: label and PC-offset locations resolve to origin + line - 1 + offset (i32 reference) "
-    "exactly when that is a user-space address; AsmSource maps address -> statement (address - origin) or none and shows exactly the "
-    "statement's span; statement spans: first token .. end of last consumed operand; directive spans = Span::join.",
-    "that the sliced text 'looks like' the statement in a real file (comments/commas between operands, multi-byte characters before it) "
-    "is implied only as an argument from byte-offset spans.",
+    "Index/span arithmetic behind the debugger's view: label and PC-offset locations resolve to origin + line - 1 + "
+    "offset (i32 reference) exactly when that is a user-space address; AsmSource maps address -> statement (address "
+    "- origin) or none and shows exactly the statement's span (also with multi-byte characters before it); parse() "
+    "builds a statement's span from its first token to the end of its last consumed operand (parse_instr replaced "
+    "by its contract towards parse(): 'operands consumed up to byte E' / 'no operand'), expect()/expect_reg() "
+    "record that end; directive spans = Span::join.",
+    "that the sliced text 'looks like' the statement in a real file (comments/commas between operands) is implied "
+    "only as an argument from byte-offset spans; the non-minimal context printer.",
     DBG_INV,
 )
 
@@ -378,14 +384,17 @@ PARSEF = "src/debugger/command/parse/mod.rs"
 STDINF = "src/debugger/command/reader/stdin.rs"
 prop(
     "C14",
-    "Integer::try_parse / try_parse_signed on every ASCII string of <= 4 bytes against a hand-written reference recogniser of the "
-    "documented grammar; digit accumulation at the i32 boundary (10 decimal / 8 hex symbolic digits); as_u16/as_i16/as_u16_cast for "
-    "every i32; Location / MemoryLocation / Register / PCOffset / Label parsing on every ASCII string <= 4 bytes; the naive type "
-    "pre-check never rejects what the real parser accepts; argument tokenisation on lines <= 5 bytes; the same <= 4-byte script read "
-    "through --command and through stdin yields the same command sequence.",
-    "longer strings; non-ASCII bytes in arguments (covered only in the transport harness with one 2-byte character); invalid UTF-8 on "
-    "stdin (assumed away: `expect(\"uh oh\")` is reachable with it -- observation in DESIGN.md); command-name tables (finite, checked "
-    "by the repository's own tests); effect of the parsed command is C13's domain.",
+    "Integer::try_parse / try_parse_signed on every ASCII string of <= 4 bytes against a hand-written reference "
+    "recogniser of the documented grammar; digit accumulation at the i32 boundary (10 decimal / 8 hex symbolic "
+    "digits); as_u16/as_i16/as_u16_cast for every i32; Location / MemoryLocation / Register / PCOffset / Label "
+    "parsing on every ASCII string <= 4 bytes; the naive type pre-check never rejects what the real parser accepts; "
+    "argument tokenisation on lines <= 5 bytes; `step into` count default/clamp; scripts of 1 (thorough: 2, 3) "
+    "bytes over {a, space, ';', newline} and scripts with a 2-byte character read through --command and through "
+    "stdin yield the same command sequence; step/break subcommand tables in every letter case (thorough).",
+    "longer strings; the main command-name table (18 entries, ~110 names: one entry against the whole table with a "
+    "symbolic case mask did not finish in 25 min -- seed C14-A is therefore missed); invalid UTF-8 on stdin "
+    "(assumed away: `expect(\"uh oh\")` is reachable with it -- observation in DESIGN.md); the effect of the parsed "
+    "command is C13's domain.",
     ["command lines contain no ';' or newline (the readers split on them first: c14_transport_equivalence)"],
 )
 H("C14", "debugger::command::parse::integer::verif_h::c14_int_len4", INTF, covers=3, timeout=2400, mem_gb=20,
@@ -419,11 +428,16 @@ for nm, q in [("len1", True), ("len2", False), ("len3", False), ("multibyte", Tr
 TERMF = "src/debugger/command/reader/terminal.rs"
 prop(
     "C20",
-    "Editor kernels (find_word_next, find_word_back, count_chars_bytes, insert_char_index, remove_char_index) on every string of "
-    "<= 2 characters (3 in thorough) over {a, space, +, e-acute, grinning face} (enumerated concretely inside the harness so UTF-8 "
-    "decoding constant-folds) x every cursor in [0, #chars] x both word modes (symbolic, solver-decided): results are character "
-    "indexes within the line and equal a reference editor on a char vector.",
-    "get_next_command (its `find` runs core's memchr: out of memory even for 2-byte lines); longer lines; history files; terminal rendering.",
+    "Bounded model checking with the strings and cursor positions *enumerated concretely inside the harness* (every "
+    "string of <= 2, thorough 3, characters over {a, space, +, e-acute, grinning face} x every cursor in [0, "
+    "#chars]) and a flag or state index left symbolic: word motions (find_word_next / find_word_back) return "
+    "character indexes inside the line and equal a reference editor on a char vector (lenient on trailing blanks); "
+    "count_chars_bytes agrees with the UTF-8 layout; insert/remove at a character index; one handle_key step per "
+    "key kind from every editor state of the bound: cursor in [0, #chars], buffer/cursor/submission equal the "
+    "reference editor.",
+    "symbolic strings, cursors or typed characters (intractable: DESIGN.md 2.5); get_next_command (its `find` runs "
+    "core's memchr: out of memory even for 2-byte lines); history navigation with a non-empty history; longer "
+    "lines; terminal rendering.",
     ["char::is_whitespace / is_alphanumeric replaced by their exact answers on the 5-character alphabet"],
 )
 CH_STUB = "char::is_whitespace / char::is_alphanumeric -> exact answers on the alphabet"
@@ -447,12 +461,17 @@ EVAL_STUBS = [FMT, SYM, PRINT, "AsmParser::new_simple -> parser over the harness
               "error::parse_generic_unexpected / parse_lit_range / parse_eof -> contract stubs"]
 prop(
     "C15",
-    "The real eval_inner on token vectors (mnemonic fixed per harness, operands symbolic) from an arbitrary machine at an arbitrary PC: "
-    "exactly one execute of exactly the ISA encoding of the given instruction on the untouched machine; a label operand is encoded "
-    "relative to the *current PC* (target = origin + label line - 1), refused when out of the field's reach; BR*, RTI, HALT, unknown "
-    "trap vectors, missing / surplus / wrong-kind operands and non-instructions are refused with no effect and no exit/panic.",
-    "literal PC offsets and JSR/JSRR/CALL link values (left unspecified by the property); the text -> token step (C05); the effect of "
-    "the executed word (C02).",
+    "The real eval_inner from an arbitrary machine at an arbitrary PC, with AsmParser::parse_simple replaced by its "
+    "contract (an arbitrary statement of the harness's form, or 'not exactly one well-formed instruction') and "
+    "RunState::execute by a recorder that applies an arbitrary effect: exactly one execute of exactly the ISA "
+    "encoding of the statement, at the current PC, on the untouched machine, and afterwards the machine is exactly "
+    "what the execution left (nothing is 'restored'); a label operand is encoded relative to the *current PC* "
+    "(target = origin + label line - 1, distance modulo 2^16), refused when out of the field's reach or undefined; "
+    "BR*, RTI, HALT, every trap vector outside x20..x27 and malformed text are refused with no effect and no "
+    "exit/panic. The contract of parse_simple (first-token dispatch, missing/surplus/wrong-kind operands, "
+    "non-instructions) is decided by c15_parse_simple_* (thorough) and c01_pe_* (operands -> statement).",
+    "literal PC offsets and JSR/JSRR/CALL link values (left unspecified by the property); the text -> token step "
+    "(C05); the effect of the executed word (C02).",
     ["label line L >= 1 and origin + L - 1 <= 0xFFFF"],
 )
 EVAL_STUBS2 = [FMT, SYM, PRINT, EXIT, "AsmParser::new_simple -> empty parser; AsmParser::parse_simple -> its contract: an arbitrary statement of the harness's form, or Err "
@@ -481,14 +500,16 @@ FEATF = "src/features.rs"
 KW = "Cursor::check_instruction / check_trap / check_directive -> any result they can produce (over-approximation; tables checked on concrete keywords)"
 prop(
     "C05",
-    "Assume-guarantee decomposition, bounded.  Lexer: one harness per arm of advance_token on every valid-UTF-8 text of <= 3 bytes "
-    "starting with that arm's characters (plus 2- and 4-byte first characters): no panic/overflow, token and diagnostic spans inside "
-    "the source.  Parser: parse_instr (per mnemonic) and parse_trap on <= 3 operand tokens of any kind (Byte, Breakpoint, .orig, "
-    "strings ...), any line number; parse()'s own loop on <= 3 tokens from any starting line (so statement 65,535 is decided without "
-    "unrolling) with parse_instr/parse_trap replaced by their contract.  Display for TokenKind on every kind.  bit_offs at the i16 "
-    "extremes (C04).",
-    "miette's rendering; texts longer than 3 bytes as text (the token level takes over); preprocess()'s expansion loops; 'never loops "
-    "forever' is only the unwinding assertion within these bounds.",
+    "Assume-guarantee decomposition, bounded. Lexer: one harness per arm of advance_token and per text length (2 "
+    "and 3 bytes): the arm's first character followed by every valid-UTF-8 continuation, plus 2- and 4-byte first "
+    "characters: no panic/overflow, token and diagnostic spans inside the source (keyword classifiers "
+    "over-approximated). Parser: parse_instr per mnemonic and per number of operand tokens (tokens of any kind: "
+    "Byte, Breakpoint, .orig, strings ...), parse_trap, any line number; parse()'s own loop on 1 (thorough: 2) "
+    "tokens of any kind from any starting line (so statement 65,535 is decided without unrolling) with "
+    "parse_instr/parse_trap replaced by their contract. Display for TokenKind on every kind. bit_offs and literal "
+    "PC offsets at the 16-bit extremes.",
+    "miette's rendering; texts longer than 3 bytes as text (the token level takes over); preprocess()'s expansion "
+    "loops (.blkw/.stringz); 'never loops forever' is only the unwinding assertion within these bounds.",
     ["token spans lie inside the source on ASCII text (what the lexer harnesses establish)",
      "Dir tokens other than .orig do not survive preprocessing"],
 )
@@ -521,13 +542,15 @@ H("C05", "air::verif_h::c04_bit_offs", AIR, covers=3, stubs=[FMT], functions=["A
 
 prop(
     "C18",
-    "Lexer gate: the four stack mnemonics classify as instructions iff the flag is on, are refused with a diagnostic otherwise, and "
-    "every other keyword classifies identically for both flag values -- and with the feature cell uninitialised (any read of the flag "
-    "panics), which shows those paths never consult it.  VM gate: opcode 0xD with the flag off reaches exit(1) before anything "
-    "executes; with it on executes per the documented encoding (C02).  `step out` follows the flag as implemented.  Features::from_str "
-    "on the documented spellings.",
-    "the -f command-line plumbing in main.rs; letter case of the mnemonics is folded before the classifier (to_ascii_lowercase in "
-    "ident(): read, not executed on symbolic text).",
+    "Lexer gate: the four stack mnemonics classify as instructions iff the flag is on, are refused with a "
+    "diagnostic otherwise -- on the classifier with lowercase text for both flag values, and through the real "
+    "advance_token on the lower-case / UPPER-CASE / Capitalised source spellings (thorough: all 2^n case variants) "
+    "-- and every other keyword classifies identically for both flag values and with the feature cell uninitialised "
+    "(any read of the flag panics), which shows those paths never consult it. VM gate: opcode 0xD with the flag off "
+    "reaches exit(1) before anything executes; with it on executes per the documented encoding. Loading and a "
+    "representative non-0xD handler run with the feature cell uninitialised. `step out` follows the flag as "
+    "implemented (thorough). Features::from_str on the documented spellings.",
+    "the -f command-line plumbing in main.rs.",
     [],
 )
 H("C18", "lexer::verif_h::c18_gate_lexer", LEX, covers=2, stubs=[FMT], functions=["Cursor::check_instruction", "features::stack", "error::lex_stack_extension_not_enabled"],
